@@ -477,6 +477,16 @@ func seqProfile(prop string, rng *simrt.Rng, tier string) (*Profile, map[string]
 		// data region of 8..200 blocks beyond the fixed areas; the first size that formats is found by the engine
 		k["data_blocks"] = int64(8 + rng.Intn(193))
 		disk = 0
+		if rng.Chance(0.2) {
+			// journal pressure instead of space pressure: a large disk, no injected
+			// allocation failures, requests of several megabytes (READs over sparse
+			// files, writes, link targets): what one transaction cannot hold must be
+			// refused without a trace, everything else must succeed
+			k["nospace"], k["allocfail"] = 0, 0
+			disk = uint64(20000 + rng.Intn(30000))
+			p.PHuge = 0.15
+			p.MaxData = 200 << 10
+		}
 	case "C10":
 		p.MinOps, p.MaxOps = 20, 120
 		p.PRestart = 0.08
@@ -1103,7 +1113,8 @@ func (x *seqRun) main() {
 		}
 		simrt.SetTag(fmt.Sprintf("op %d %s", i, describeIn(in)))
 		var audit *failAudit
-		if spec.knob("fail_audit", 0) != 0 && isMutating(in.K) {
+		// (a READ fills holes, so it can fail part-way like a mutating request)
+		if spec.knob("fail_audit", 0) != 0 && (isMutating(in.K) || in.K == "read") {
 			audit = x.beforeAudit()
 		}
 		x.d.Mark(i, 0)
